@@ -153,6 +153,12 @@ def enc_twice_jobs():
             tier = "quick" if (bi in (0, 1) or pi in (0, 1)) and not (bi == 3 and pi > 1) else "thorough"
             jobs.append(Job("enc.cpp", "h_enc_twice", defs=dd, unwind=1200, tier=tier, in_max=enc_in_max(d) + 160, mem_gb=4,
                             sym=ENC_SYM + "; the earlier call's payload, timestamp and flags; its version is the batch's version xor 0x5A", outside=ENC_OUT))
+    # a configuration change between the two calls: the second call's frames carry the new ids and restart at counter 1
+    for cfg, d, tier in ((1, enc_shape([8]), "quick"), (2, enc_shape([41]), "quick"), (3, enc_shape([8, 8], [1, 3]), "quick"), (4, enc_shape([17], maxb=40), "quick"),
+                         (1, enc_shape([41]), "thorough"), (2, enc_shape([8, 8], [1, 3]), "thorough"), (3, enc_shape([41]), "thorough"), (4, enc_shape([8, 8]), "thorough")):
+        dd = dict(d, PL0=8, CFG=cfg)
+        jobs.append(Job("enc.cpp", "h_enc_twice", defs=dd, unwind=1200, tier=tier, in_max=enc_in_max(d) + 168, mem_gb=4,
+                        sym=ENC_SYM + "; the earlier call's payload, timestamp and flags; the new device / stream id", outside=ENC_OUT))
     # differential form (fresh vs used real encoder): any configuration, incl. minimum > maximum
     diffs = [(enc_shape([8], maxb=40, minb=48), {"PL0": 8, "PMIN": 64, "PMAX": 100}, "quick"),
              (enc_shape([8], maxb=40), {"PL0": 8, "PMIN": 64, "PMAX": 64}, "quick"),
